@@ -138,7 +138,7 @@ def pose_walk(load, walk, rep):
         if isinstance(n, ast.Assign) and len(n.targets) == 1 and isinstance(n.targets[0], ast.Name) and n.targets[0].id in scalars and isinstance(n.value, ast.Name):
             init[n.targets[0].id] = n.value.id
     arm_call = [c for c in ast.walk(load.node) if isinstance(c, ast.Call) and src(c.func) == 'Arm']
-    run = src(arm_call[0].args[2]).replace(' ', '') if arm_call and len(arm_call[0].args) > 2 else None
+    run = src(Inliner(load).expand(arm_call[0].args[2])).replace(' ', '') if arm_call and len(arm_call[0].args) > 2 else None      # a temporary holding the pose is read in place
     keys = sorted(scalars | {lst + '[-1]'})
     res = {'run': run, 'tables_ok': False, 'tables_msg': 'tables not analysed'}
     if run not in keys:
@@ -270,6 +270,47 @@ def canonicalise_roles(load):
     return roles
 
 
+def positional_calls(model, load):
+    """The rules read the loader's calls of Arm(...) and of the Arm setters by POSITION.  Calls written with keyword arguments are put into that
+    form first (in this process' copy of the syntax tree only): each keyword moves to the position its parameter has in the callee's
+    signature, parameters skipped in between get the callee's default expression."""
+    import copy
+    arm_cls = model.cls(ARM, 'Arm')
+    if arm_cls is None:
+        return
+    for c in ast.walk(load.node):
+        if not (isinstance(c, ast.Call) and c.keywords and all(k.arg for k in c.keywords)):
+            continue
+        if isinstance(c.func, ast.Name) and c.func.id == 'Arm':
+            callee = arm_cls.methods.get('__init__')
+        elif isinstance(c.func, ast.Attribute) and c.func.attr in ('setJointProperties', 'setNames', 'setOrigins', 'setMassProperties', 'setVisColProperties'):
+            callee = arm_cls.methods.get(c.func.attr)
+        else:
+            continue
+        if callee is None:
+            continue
+        params = callee.params[1:]
+        dflt = dict(zip(params[len(params) - len(callee.node.args.defaults):], callee.node.args.defaults))
+        kw = {k.arg: k.value for k in c.keywords}
+        if not set(kw) <= set(params):
+            continue
+        args = list(c.args)
+        last = max(params.index(k) for k in kw)
+        ok = True
+        for p_ in params[len(args):last + 1]:
+            if p_ in kw:
+                args.append(kw[p_])
+            elif p_ in dflt:
+                args.append(copy.deepcopy(dflt[p_]))
+            else:
+                ok = False
+                break
+        if ok:
+            c.args, c.keywords = args, []
+            for a_ in args:
+                load.module.parents[a_] = c
+
+
 def check(model, rep):
     rep.extra['explanation'] = (
         'Definite-assignment (must) analysis of the joint parser over all paths including zero loop iterations, guard dominance '
@@ -277,6 +318,7 @@ def check(model, rep):
         'chain walk, and structural check of the screw construction and of the Arm(...) call.')
     load = model.func(ARM, 'loadArmFromURDF')
     loader_cls = model.cls(ARM, 'URDFLoader')
+    positional_calls(model, load)
     roles = canonicalise_roles(load)
     rep.note('locals of loadArmFromURDF by role: %s' % {v: k for k, v in sorted(roles.items())})
     il_load = Inliner(load)
@@ -544,7 +586,7 @@ def check(model, rep):
     rep.ob('R13.4', load, 'screw_i = [axis_i ; point_i x axis_i]', ok, 'screw construction is %s' % got_txt)
     arm_call = [c for c in ast.walk(load.node) if isinstance(c, ast.Call) and src(c.func) == 'Arm']
     ok = len(arm_call) == 1 and len(arm_call[0].args) == 5 and [il_load.text(x, canon=False, keep=KEEP) for x in arm_call[0].args[:2] + arm_call[0].args[3:]] == ['tm()', 'screw_list', 'joint_homes', 'joint_axes'] \
-        and src(arm_call[0].args[2]).replace(' ', '') == pose['run']
+        and src(il_load.expand(arm_call[0].args[2])).replace(' ', '') == pose['run']
     rep.ob('R13.4', load, 'Arm(tm(), screws, last accumulated pose, points, axes)', ok, 'Arm is built with %s' % ([src(x) for x in arm_call[0].args] if arm_call else '?'))
     sj = [c for c in ast.walk(load.node) if isinstance(c, ast.Call) and isinstance(c.func, ast.Attribute) and c.func.attr == 'setJointProperties']
     ok = len(sj) == 1 and [il_load.text(x, canon=False, keep=KEEP) for x in sj[0].args[:2]] == ['np.array(joint_mins)', 'np.array(joint_maxs)']
@@ -592,14 +634,21 @@ def check(model, rep):
             else:
                 return e_
     n137 = 0
+    from .common_ops import flat_method as _fm137
+    sj_params = sj.params
+    sj = _fm137(arm_cls, 'setJointProperties')           # a private "store what is given" helper read in place (loops over literal pairs unrolled)
     il137 = Inliner(sj)
     for fld, want in (('joint_mins', None), ('joint_maxs', None)):
-        for st_ in [a_ for a_ in walk_own(sj.node) if isinstance(a_, ast.Assign) and any(norm_text(t_) == 'self.' + fld for t_ in a_.targets)]:
+        stores137 = [(a_, a_.value) for a_ in walk_own(sj.node) if isinstance(a_, ast.Assign) and any(norm_text(t_) == 'self.' + fld for t_ in a_.targets)]
+        # setattr(self, '<field>', value) is the same store
+        stores137 += [(c_, c_.args[2]) for c_ in walk_own(sj.node) if isinstance(c_, ast.Call) and norm_text(c_.func) == 'setattr' and len(c_.args) == 3
+                      and norm_text(c_.args[0]) == 'self' and isinstance(c_.args[1], ast.Constant) and c_.args[1].value == fld]
+        for st_, val_ in stores137:
             n137 += 1
-            core = _plain(il137.expand(st_.value))
-            ok_ = isinstance(core, ast.Name) and core.id in sj.params and fld.split('_')[1][:3] in core.id
+            core = _plain(il137.expand(val_))
+            ok_ = isinstance(core, ast.Name) and core.id in sj_params and fld.split('_')[1][:3] in core.id
             rep.ob('R13.7', sj, 'self.%s = the limits given' % fld, ok_,
                    'setJointProperties stores %s as self.%s: the limits of the loaded arm are no longer the ones written in the URDF (a joint declared with a range '
                    'beyond that is reported - and clamped by FK - at other values, so in-limit joint values give the pose of another configuration)'
-                   % (norm_text(st_.value)[:70], fld), line=st_.lineno)
+                   % (norm_text(val_)[:70], fld), line=st_.lineno)
     rep.floor('R13.7', 'limit stores of setJointProperties', n137, 2)
